@@ -82,6 +82,28 @@ class GenericRules(unittest.TestCase):
         common.permutation_gather(ctx)
         return [o.verdict for o in ctx.obs.values()]
 
+    def run_named(self, rule, fn):
+        from vstat.loader import Package
+        from vstat.paths import Analysis
+        from vstat.report import Ctx
+        from vstat.rules import common
+        pkg = Package(ROOT / "fixtures" / "mini", name="mini")
+        ctx = Ctx("CXX", "quick", pkg, Analysis(pkg))
+        ctx.consulted.add("mini.core." + fn)
+        getattr(common, rule)(ctx)
+        return [o.verdict for k, o in ctx.obs.items() if ("mini.core." + fn) in str(k)]
+
+    def test_blocked_loop_without_remainder_is_reported(self):
+        self.assertEqual(self.run_named("chunked_loops", "blocks_dropping_the_remainder"), ["VIOLATED"])
+
+    def test_blocked_loop_with_ceiling_or_tail_is_not(self):
+        self.assertEqual(self.run_named("chunked_loops", "blocks_with_a_ceiling_count"), ["DISCHARGED"])
+        self.assertEqual(self.run_named("chunked_loops", "blocks_with_a_tail"), ["DISCHARGED"])
+
+    def test_or_default_on_a_number_is_reported(self):
+        self.assertEqual(self.run_named("falsy_defaults", "or_default"), ["VIOLATED"])
+        self.assertEqual(self.run_named("falsy_defaults", "none_default"), ["DISCHARGED"])
+
     def test_gather_with_the_permutation_itself_is_reported(self):
         self.assertEqual(self.run_rule("nested_windows_wrong"), ["VIOLATED"])
 
